@@ -9,6 +9,7 @@ import Driver.Ops.Edge
 import Driver.Ops.Envelope
 import Driver.Ops.Mx
 import Driver.Ops.Policy
+import Driver.Ops.Ingress
 import Driver.Ops.Pool
 import Driver.Ops.RelaySession
 import Driver.Ops.Proxy
@@ -35,6 +36,7 @@ def dispatch (line : String) : String :=
   | "envelope" :: rest => envelopeOp rest
   | "mx" :: rest => mxOp rest
   | "policy" :: rest => policyOp rest
+  | "ingress" :: rest => ingressOp rest
   | "pool" :: rest => poolOp rest
   | "relaysession" :: rest => relaySessionOp rest
   | "proxy" :: rest => proxyOp rest
